@@ -1,6 +1,7 @@
 package main
 
 import (
+	"os"
 	"fmt"
 	"go/ast"
 	"go/constant"
@@ -1034,6 +1035,10 @@ func (e *Env) callSpecFn(sf *SpecFn, args []Val) Val {
 
 type recSig struct {
 	fams []string
+	// shallow: the body reads the heap only in rows of objects that are themselves arguments (slice / pointer / map
+	// parameters), and recursive calls pass those objects on unchanged. Such a function depends on a heap family only
+	// through those rows, which gives it a frame axiom (declareRec).
+	shallow bool
 }
 
 func (c *FnCtx) recSignature(sf *SpecFn, pkg *types.Package) *recSig {
@@ -1054,7 +1059,7 @@ func (c *FnCtx) recSignature(sf *SpecFn, pkg *types.Package) *recSig {
 		vars[p.Name] = sub.freshVal(p.Name, pt)
 	}
 	env := &Env{c: sub, vars: vars, cur: st, old: st, pkg: pkg, guard: TTrue}
-	env.eval(sf.Body)
+	bodyVal := env.eval(sf.Body)
 	var fams []string
 	for _, f := range sub.recFams {
 		if !strings.HasPrefix(f, "$") {
@@ -1064,6 +1069,57 @@ func (c *FnCtx) recSignature(sf *SpecFn, pkg *types.Package) *recSig {
 	s := &recSig{fams: fams}
 	for _, f := range fams {
 		c.eng.recFamSorts[f] = sub.famSort[f]
+	}
+	// shallowness: every heap row read is the row of an object-valued argument
+	objArg := map[string]bool{}
+	for _, p := range sf.Params {
+		pt := c.eng.resolveType(pkg, p.Type)
+		for i, l := range leavesOf(pt) {
+			if l.Role == "obj" || l.Role == "map" {
+				objArg[vars[p.Name].L[i].Op] = true
+			}
+		}
+	}
+	famSet := map[string]bool{}
+	for _, f := range fams {
+		famSet[f+"@0"] = true
+	}
+	s.shallow = len(fams) > 0 && len(bodyVal.L) == 1
+	if s.shallow {
+		var terms []*Term
+		terms = append(terms, bodyVal.L...) // side facts (well-formedness, map axioms) are not part of the definition
+		for _, t := range terms {
+			t.Walk(func(x *Term) {
+				if x.Op == "select" && len(x.Args) == 2 && len(x.Args[0].Args) == 0 && famSet[x.Args[0].Op] {
+					// a row of a heap family: the object must be an argument
+					if o := x.Args[1]; len(o.Args) != 0 || !objArg[o.Op] {
+						s.shallow = false
+					}
+				}
+				if x.Op == sf.Name {
+					// a recursive call (provisional signature: no family arguments): object arguments passed on as they are
+					k := 0
+					for _, p := range sf.Params {
+						pt := c.eng.resolveType(pkg, p.Type)
+						for i, l := range leavesOf(pt) {
+							if (l.Role == "obj" || l.Role == "map") && k < len(x.Args) && x.Args[k].Op != vars[p.Name].L[i].Op {
+								s.shallow = false
+							}
+							k++
+						}
+					}
+				}
+				// a family used other than row-wise (passed whole to something else) defeats the argument
+				for _, a := range x.Args {
+					if len(a.Args) == 0 && famSet[a.Op] && !(x.Op == "select" && a == x.Args[0]) {
+						s.shallow = false
+					}
+				}
+			})
+		}
+	}
+	if os.Getenv("VCGO_DEBUG_REC") != "" {
+		fmt.Fprintf(os.Stderr, "rec %s: fams=%v shallow=%v body=%s\n", sf.Name, fams, s.shallow, bodyVal.L[0])
 	}
 	c.eng.recSigs[sf.Name] = s
 	c.declareRec(sf, s, pkg)
@@ -1084,6 +1140,48 @@ func (c *FnCtx) declareRec(sf *SpecFn, s *recSig, pkg *types.Package) {
 	}
 	rt := c.eng.resolveType(pkg, sf.Ret)
 	c.decls.Fun(sf.Name, sorts, leavesOf(rt)[0].Sort)
+	if !s.shallow || c.rec {
+		return
+	}
+	if c.recFrame == nil {
+		c.recFrame = map[string]bool{}
+	}
+	if c.recFrame[sf.Name] {
+		return
+	}
+	c.recFrame[sf.Name] = true
+	// frame axiom: two heaps that agree on the rows of the object arguments give the same value
+	var fa, fb, ps, objs []*Term
+	for i, f := range s.fams {
+		fa = append(fa, Var(fmt.Sprintf("F!a%d", i), c.eng.recFamSorts[f]))
+		fb = append(fb, Var(fmt.Sprintf("F!b%d", i), c.eng.recFamSorts[f]))
+	}
+	k := 0
+	for _, p := range sf.Params {
+		for _, l := range leavesOf(c.eng.resolveType(pkg, p.Type)) {
+			v := Var(fmt.Sprintf("a!r%d", k), l.Sort)
+			ps = append(ps, v)
+			if l.Role == "obj" || l.Role == "map" {
+				objs = append(objs, v)
+			}
+			k++
+		}
+	}
+	var prem []*Term
+	for i := range s.fams {
+		for _, o := range objs {
+			prem = append(prem, Eq(Select(fa[i], o), Select(fb[i], o)))
+		}
+	}
+	rs := leavesOf(rt)[0].Sort
+	appA := App(sf.Name, rs, append(append([]*Term{}, fa...), ps...)...)
+	appB := App(sf.Name, rs, append(append([]*Term{}, fb...), ps...)...)
+	bound := append(append(append([]*Term{}, fa...), fb...), ps...)
+	saved := c.bound
+	c.bound = nil
+	c.addFact(Forall(bound, Imp(And(prem...), Eq(appA, appB)), []*Term{appA, appB}))
+	c.bound = saved
+	c.assumed["rec-frame:"+sf.Name+" depends on the heap only through the rows of its object arguments (checked syntactically on its body)"] = true
 }
 
 // freshVal creates an unconstrained symbolic value of type t.
